@@ -255,7 +255,41 @@ def rule_dispatch_accounting(ctx):
     C18.rule_R3(R.Retag(ctx, "C18."))
 
 
+def rule_pool_construction(ctx):
+    """R4: the worker pool is the analyzer's configuration moved to other threads: wherever a pool is built (`init_pool`, or on demand
+    in `process_parallel`), the parameters that have a like-named field in the analyzer are passed from that field - a pool built with
+    `None` for the filter, or with another capacity, analyses different packets than the sequential analyzer configured the same way"""
+    P = ctx.program
+    n = 0
+    for b in sorted(P.bodies.values(), key=lambda x: x.path):
+        if not b.crate.startswith("huginn_net_") or b.crate == "huginn_net_db":
+            continue
+        S = None
+        for blk, t in b.calls():
+            nm = callee_of(t)
+            if not (nm.endswith("WorkerPool::new") and "::parallel::" in nm):
+                continue
+            cal = P.bodies.get(nm)
+            if cal is None:
+                continue
+            S = S or T.Slicer(b, P)
+            a = Q.call_args(b, S, blk, t)
+            names = [cal.local_name(i + 1) for i in range(cal.arg_count)]
+            n += 1
+            for pname in ("filter_config", "max_connections"):
+                if pname not in names:
+                    continue
+                arg = a[names.index(pname)]
+                from_field = any(x[0] == "field" and x[2] == pname and any(y[0] == "param" and y[1] == 0 for y in T.walk(x[1])) for x in T.walk(arg))
+                ctx.check(from_field, "R4", "%s:pool:%s:%s" % (b.crate.replace("huginn_net_", ""), T.short(b.path).split("::")[-1], pname),
+                          "WorkerPool::new(.., %s: self.%s)" % (pname, pname),
+                          "%s builds the worker pool with %s = %s instead of self.%s: the pool's workers are configured differently from the sequential analyzer"
+                          % (T.short(b.path), pname, T.pp(T.strip(arg))[:50], pname), ctx.loc(b, blk))
+    ctx.floor("R4", "worker pool construction sites", n, 4)
+
+
 def run(ctx):
+    rule_pool_construction(ctx)
     rule_dispatch_accounting(ctx)
     rule_dispatch_identity(ctx)
     rule_uptime_keys(ctx)
